@@ -95,6 +95,7 @@ def run(ctx):
         from .. import named
         named.monitor(ctx, ['quadrotor:f', 'quadrotor:g_accel', 'quadrotor:g_gyro', 'quadrotor:g_mag', 'quadrotor:g_gps_pos'], ctx.rng("named"))
         ctx.require("call_by_argument_name", "(by-name calls never evaluated)")
+        named.derivation_history(ctx, ['quadrotor'], ctx.rng("named2"))
     model = get_model(ctx)
     if model is None:
         return
